@@ -281,7 +281,48 @@ def c14f(ctx, tu):
                detail="" if not bad else "the coroutine uses its reference parameter `%s` after a suspension point; for a "
                "generator or a lazily started task the referenced object (the dispatch function's parameter tuple) is gone "
                "by then (at %s)" % (bad[0][1], short_loc(bad[0][0].get("loc", ""))))
+    c14f_args(ctx, tu)
     return n
+
+
+def c14f_args(ctx, tu):
+    """A reference parameter of a library coroutine lives in the coroutine frame as a reference: what a library
+    caller binds it to must outlive the caller's own activation.  A temporary (a conversion or a by-value result)
+    or a local of the caller dies when the caller returns - before a lazily started coroutine even begins."""
+    callers = tu.callers()
+    for fn in tu.fns.values():
+        if not fn.has_body or not fn.is_lib or not fn.rec.get("coro"):
+            continue
+        refs = [i for i, p in enumerate(fn.rec["params"]) if p["t"].endswith("&")]
+        if not refs:
+            continue
+        for cf, b, e in callers.get(fn.id, ()):
+            if not cf.is_lib or cf.id == fn.id:
+                continue
+            args = e.get("args") or []
+            for i in refs:
+                if i >= len(args):
+                    continue
+                a = args[i]
+                why = None
+                if isinstance(a, list) and a:
+                    if a[0] == "ctor":
+                        why = "a temporary created for the call (an implicit conversion)"
+                    elif a[0] in ("call", "mcall", "opcall"):
+                        cal = tu.fns.get(a[1])
+                        ret = (cal.rec.get("ret") if cal is not None else None) or ""
+                        if ret and not ret.rstrip().endswith("&") and not ret.rstrip().endswith("*"):
+                            why = "the by-value result of %s" % a[2]
+                    elif a[0] == "var":
+                        decl = [d for _, d in cf.events() if d["e"] == "decl" and d.get("var") == a[1]]
+                        t = decl[0].get("type", "") if decl else ""
+                        if decl and not t.rstrip().endswith("&") and "static" not in str(decl[0].get("storage", "")):
+                            why = "the caller's local `%s`" % a[2]
+                ctx.ob("C14.f", fn.qe + " <- " + cf.qe, why is None, pattern=short_loc(e.get("loc", "")), unit=tu.name,
+                       inst=cf.q,
+                       detail="" if why is None else "reference parameter `%s` of the coroutine %s is bound to %s, which "
+                       "is destroyed when %s returns; the coroutine frame keeps the dangling reference"
+                       % (fn.rec["params"][i]["n"], fn.qe, why, cf.qe))
 
 
 def c14g(ctx, tu):
